@@ -6,3 +6,9 @@ python3-vt -c "import z3, sys; sys.path.insert(0,'/repo/src'); import dendropy; 
 command -v cvc5 >/dev/null && echo "cvc5 ok" || echo "cvc5 missing (fallback solver unavailable)"
 command -v lean >/dev/null && echo "lean ok" || echo "lean missing"
 mkdir -p evidence replays
+# warm the page cache for the Mathlib .olean files the lemma layer imports (a cold first `lean` run takes minutes)
+if command -v lean >/dev/null; then
+  for f in lemmas/*.lean; do
+    [ -f "$f" ] && (cd /opt/veriftools/mathlib4 && LEAN_PATH="$(python3-vt -c 'import sys; sys.path.insert(0,"/verif"); from dpvc.lean import _lean_path; print(_lean_path())')" timeout 900 lean "/verif/$f" >/dev/null 2>&1 || true)
+  done
+fi
